@@ -133,3 +133,38 @@ Proof.
   unfold four_pi. rewrite two_R. runf.
   unfold Rdiv. rewrite !Rinv_mult. generalize (/ PI) (/ sg). intros ip isg. clearbody nr. field. repeat split; try lra; nra.
 Qed.
+
+(* ------------------------------------------------------------------ linearity in the dipole moment (ties to C08) *)
+Lemma sarvas_linear a b (q1 q2 r0 r : rv) :
+  sarvas O_ (radd (rscale a q1) (rscale b q2)) r0 r = radd (rscale a (sarvas O_ q1 r0 r)) (rscale b (sarvas O_ q2 r0 r)).
+Proof.
+  unfold sarvas. generalize (sarvas_gf O_ r0 r) (sarvas_ff O_ r0 r). intros g f.
+  vunf. apply v3_eq; cbn [vx vy vz]; unfold Rdiv; ring.
+Qed.
+
+Lemma series_linear cs t m2 a b qr1 qr2 qw1 qw2 n s acc1 acc2 :
+  series O_ cs t m2 (a * qr1 + b * qr2) (a * qw1 + b * qw2) n s (a * acc1 + b * acc2)
+  = a * series O_ cs t m2 qr1 qw1 n s acc1 + b * series O_ cs t m2 qr2 qw2 n s acc2.
+Proof.
+  revert n s acc1 acc2. induction cs as [|c cs IH]; intros n s acc1 acc2; cbn [series]; [reflexivity|].
+  destruct s as [[[pm p] dm] d]. rewrite <- IH. f_equal. runf. ring.
+Qed.
+
+Lemma series_linear0 cs t m2 a b qr1 qr2 qw1 qw2 n s :
+  series O_ cs t m2 (a * qr1 + b * qr2) (a * qw1 + b * qw2) n s 0
+  = a * series O_ cs t m2 qr1 qw1 n s 0 + b * series O_ cs t m2 qr2 qw2 n s 0.
+Proof. rewrite <- series_linear. f_equal. ring. Qed.
+
+Lemma sphere_pot_linear radii sigmas a b (q1 q2 r0 r : rv) n :
+  sphere_pot O_ radii sigmas (radd (rscale a q1) (rscale b q2)) r0 r n
+  = a * sphere_pot O_ radii sigmas q1 r0 r n + b * sphere_pot O_ radii sigmas q2 r0 r n.
+Proof.
+  unfold sphere_pot, sphere_pot_c, sphere_pot_inv.
+  replace (rdot (radd (rscale a q1) (rscale b q2)) r) with (a * rdot q1 r + b * rdot q2 r) by (vunf; ring).
+  replace (rdot (radd (rscale a q1) (rscale b q2)) r0) with (a * rdot q1 r0 + b * rdot q2 r0) by (vunf; ring).
+  runf.
+  set (nr := sqrt (rdot r r)). set (Ro := outer_radius O_ radii).
+  replace ((a * rdot q1 r + b * rdot q2 r) / nr) with (a * (rdot q1 r / nr) + b * (rdot q2 r / nr)) by (unfold Rdiv; ring).
+  replace ((a * rdot q1 r0 + b * rdot q2 r0) / Ro) with (a * (rdot q1 r0 / Ro) + b * (rdot q2 r0 / Ro)) by (unfold Rdiv; ring).
+  rewrite series_linear0. unfold Rdiv. ring.
+Qed.
